@@ -39,6 +39,8 @@ class Run:
         self.assumptions = []
         self.findings = [f for f in load_known() if prop in f.get("properties", [f.get("property")])]
         self.bins = {}
+        import threading
+        self._lock = threading.Lock()
 
     # ---------------------------------------------------------------- build
     def build(self, name, race=False, tags="verif"):
@@ -81,6 +83,11 @@ class Run:
             raise Broken("driver failed (%d): %s %s\n%s\n%s" % (p.returncode, os.path.basename(path),
                                                                 " ".join(args), p.stdout[-2000:], p.stderr[-3000:]))
         return p
+
+    def run_real(self, path, args, timeout=600, stage=""):
+        """run_driver for stages that need the driver's output: a reproducible crash inside rulio is recorded
+        as a violation and None is returned (the stage has nothing to validate then)."""
+        return self.run_driver(path, args, timeout=timeout, stage=stage)
 
     def run_driver(self, path, args, timeout=600, stage=""):
         """Run a driver of the real code. A crash of the process inside rulio (panic,
@@ -156,27 +163,72 @@ class Run:
                                    "states_generated": gen, "wall_s": round(dt, 1)})
         return states, gen, out
 
+    CHUNK = 20000     # lines per TLC run: a trace file is one TLA+ value, and very large ones slow TLC down badly
+
     def validate(self, module, cfg, trace, label, timeout=1800):
-        """TLC trace validation. Returns the list of rejected line numbers."""
+        """TLC trace validation. Returns the list of rejected line numbers (of the given file).
+        Large files are validated in pieces cut at trace boundaries (reset / round lines), each
+        with the file's header line."""
+        with open(trace) as f:
+            lines = f.read().split("\n")
+        if lines and lines[-1] == "":
+            lines.pop()
+        if len(lines) <= self.CHUNK + 2000:
+            return self._validate_one(module, cfg, trace, label, timeout, None)
+        header = lines[0] if '"ev":"header"' in lines[0] else None
+        body0 = 1 if header is not None else 0
+        structured = any('"ev":"reset"' in l or '"ev":"round"' in l for l in lines[body0:body0 + 5000])
+        parts, cur = [], []
+        for idx in range(body0, len(lines)):
+            boundary = (not structured) or '"ev":"reset"' in lines[idx] or '"ev":"round"' in lines[idx]
+            if len(cur) >= self.CHUNK and boundary:
+                parts.append(cur)
+                cur = []
+            cur.append(idx)
+        if cur:
+            parts.append(cur)
+        def one(n):
+            part = parts[n]
+            pf = "%s.part%d" % (trace, n)
+            with open(pf, "w") as f:
+                if header is not None:
+                    f.write(header + "\n")
+                for idx in part:
+                    f.write(lines[idx] + "\n")
+            off = 1 if header is not None else 0
+            back = lambda k: part[k - 1 - off] + 1      # line k of the piece -> line of the file
+            try:
+                return self._validate_one(module, cfg, pf, "%s-%d" % (label, n), timeout, back, orig=trace)
+            finally:
+                os.remove(pf)
+        import concurrent.futures as cf
+        with cf.ThreadPoolExecutor(4) as ex:
+            results = list(ex.map(one, range(len(parts))))
+        rejected = [x for r, _ in results for x in r]
+        return rejected, "\n".join(o for _, o in results)
+
+    def _validate_one(self, module, cfg, trace, label, timeout, back, orig=None):
         ntr, nev = trace_counts(trace)
         rc, out, dt = self.tlc(module, cfg, env={"TRACE": trace}, workers=1, timeout=timeout, label=label)
         m = re.search(r'"CONSUMED",\s*(\d+),\s*"OF",\s*(\d+),\s*"REJECTED",\s*\{([^}]*)\}', out)
         if not m:
             raise Broken("trace validation of %s did not complete (rc=%d):\n%s" % (trace, rc, tail(out, 40)))
         consumed, total = int(m.group(1)), int(m.group(2))
-        rejected = [int(x) for x in re.findall(r"\d+", m.group(3))]
+        back = back or (lambda k: k)
+        rejected = [back(int(x)) for x in re.findall(r"\d+", m.group(3))]
         md = re.search(r'"DEVIATIONS",\s*\{(.*?)\}\s*>>', out, re.S)
         devs = re.findall(r'<<\s*(\d+),\s*"(\w+)"\s*>>', md.group(1)) if md else []
-        for ln, name in devs:
-            self.deviation(trace, int(ln), name, label)
         if consumed != total:
             raise Broken("trace validation consumed %d of %d lines of %s:\n%s" % (consumed, total, trace, tail(out, 40)))
-        states, gen = self.tlc_counts(out)
-        self.cov["traces_validated_against_impl"] += ntr
-        self.cov["events_validated"] += nev
-        self.cov["distinct_nontrivial"] = self.cov.get("distinct_nontrivial", 0) + distinct_traces(trace)
-        self.cov["stages"].append({"stage": "trace-validation", "label": label, "module": module, "traces": ntr,
-                                   "events": nev, "rejected": len(rejected), "wall_s": round(dt, 1)})
+        dn = distinct_traces(trace)
+        with self._lock:
+            for ln, name in devs:
+                self.deviation(orig or trace, back(int(ln)), name, label)
+            self.cov["traces_validated_against_impl"] += ntr
+            self.cov["events_validated"] += nev
+            self.cov["distinct_nontrivial"] = self.cov.get("distinct_nontrivial", 0) + dn
+            self.cov["stages"].append({"stage": "trace-validation", "label": label, "module": module, "traces": ntr,
+                                       "events": nev, "rejected": len(rejected), "wall_s": round(dt, 1)})
         return rejected, out
 
     # ------------------------------------------------------------- verdicts
@@ -292,6 +344,10 @@ class Run:
 
 def crash_signature(stderr):
     """First frames of a Go panic / fatal error if they lie in rulio or its matcher; None otherwise."""
+    h = re.search(r"^VERIF-HANG (.*)$", stderr, re.M)
+    if h:
+        # the harness's per-operation watchdog: a call into rulio that did not come back
+        return "operation did not return: " + h.group(1)[:200]
     m = re.search(r"^(panic: .*|fatal error: .*|runtime: goroutine stack exceeds.*)$", stderr, re.M)
     if not m:
         return None
